@@ -19,6 +19,8 @@ import (
 
 	"verifharness/cmd/c08/rh"
 	"verifharness/lib"
+
+	"github.com/thought-machine/please/src/core"
 )
 
 var words = []string{"a", "b", "c", "ab", "bc", "k", "k1", "k2", "z", "", "a=b", "=", "x y"}
@@ -299,7 +301,7 @@ func runPlz(plz, dir string, threads int, args ...string) (string, string, int) 
 
 func main() {
 	lib.Main("C07", func(c *lib.Ctx) {
-		c.Model("From PlzV Require Import Model.C08 Model.C07_Src Model.C07_Tie.", "C07_Tie.case", "C07_Tie.check")
+		c.Model("From PlzV Require Import Model.C08 Model.C07_Src Model.C07_Provide Model.C07_Hasher Model.C07_Tie.", "C07_Tie.case", "C07_Tie.check")
 		c.Rule("in-process: random recipes with 0-5 dependencies and up to ten map-valued attributes of 0-5 entries; each performed once as generated and " +
 			"3 (thorough: 6) more times with every map's insertion order, the order of the AddDependency calls and their position relative to the sources shuffled; " +
 			"all real build.RuleHash values (rule hash and runtime hash) must be equal, equal to sha1 of the interpreted stream, and the Coq `ser prog` of both " +
@@ -311,9 +313,25 @@ func main() {
 			"(Model/C07_Src.v) must reproduce both streams from the read-back graphs; non-trivial = top target with >= 3 dependencies, >= 2 named groups, >= 4 " +
 			"yielded sources and two different stored states. end to end: `plz hash --detailed` on generated repositories (3-5 packages, dict-valued srcs/outs/env/" +
 			"entry_points/provides, diamonds) under -n 1 and -n 16, permuted target order, clean and warm plz-out; reports compared per target; and the two witnesses of map-order insertion (8-group dict srcs with exported_deps / " +
-			"runtime_deps_from_srcs) hashed 5 (thorough: 12) times on one tree. " +
+			"runtime_deps_from_srcs) hashed 5 (thorough: 12) times on one tree; a repository in which a filegroup PROVIDES 2-4 languages to two genrules that REQUIRE them in " +
+			"opposite orders through srcs, hashed 8 times alternating -n 1 / -n 16 (reports must be identical); a repository with dependencies pinned by hashes= of a " +
+			"non-default algorithm (blake3; sha1 as control) under the default sha256: cold invocation then two warm ones, reports must be identical. " +
+			"require/provide in process: a real provider with a Provides map of 2-4 languages and a real requirer listing a shuffled subset (plus unrelated ones; sometimes the " +
+			"provider is its data / tool): ProvideFor called 12 (thorough: 24) times on two insertion orders of the map, all results equal and in Requires order; every second " +
+			"recipe also as a real graph with providers of providers, recursion read 6 times; non-trivial = >= 2 languages matched / >= 2 labels yielded. " +
+			"path-hasher memo: histories of 5-14 steps on ONE real fs.PathHasher over a real tree (3 files, 2 directories): Hash (recalc 1/5), CopyHash, MoveHash, and faults " +
+			"(an entry replaced by a unix socket - open fails with ENXIO -, a file removed) that are later repaired; the raw answer of every Hash is taken from a fresh hasher " +
+			"at that moment; a digest returned with a nil error must be the digest a fresh hasher computes on the intact tree; non-trivial = a fault and a successful Hash " +
+			"after a failed one on the same path. xattr store: histories of 4-10 Hash calls by FRESH real hashers (core.NewDefaultBuildState().Hasher) of 2-4 of the six " +
+			"configured algorithms on real files under plz-out/ with random recalc / store flags; every call must return the digest the same algorithm computes with xattrs " +
+			"off; non-trivial = a read after another algorithm stored its digest on the file. " +
 			"distinct = distinct stored states; non-trivial = >= 2 maps with >= 2 entries and >= 2 dependencies")
 		prog := rh.LoadProg()
+		t0 := time.Now()
+		lap := func(what string) {
+			c.Note("timing: %s %.1fs", what, time.Since(t0).Seconds())
+			t0 = time.Now()
+		}
 
 		n := c.Scale(120, 4000)
 		perms := c.Scale(3, 6)
@@ -361,7 +379,17 @@ func main() {
 		}
 
 		// ---- the source hash on real graphs (src.go)
+		lap("rule hash")
 		runSourceHash(c)
+		lap("source hash")
+
+		// ---- require / provide, the memo of the path hasher under read faults, the xattr store (hasher.go)
+		runProvide(c)
+		lap("require/provide")
+		runMemo(c)
+		lap("memo")
+		runXattr(c)
+		lap("xattr")
 
 		// ---- end to end
 		plz := os.Getenv("VERIF_PLZ")
@@ -431,6 +459,73 @@ func main() {
 			c.HistN("e2e_targets", len(rs.Lbls))
 		}
 
+		lap("e2e generated repositories")
+		// ---- require / provide through srcs: a provider of 2-4 languages, requirers in both orders; 8 invocations on one tree
+		{
+			r := c.Rng.Fork()
+			pr := provideRepo(r)
+			dir := filepath.Join(base, "prov")
+			writeRepo(dir, filepath.Join(base, "provcache"), pr.Files)
+			first := ""
+			for k := 0; k < 8; k++ {
+				threads := []int{1, 16}[k%2]
+				so, se, rc := runPlz(plz, dir, threads, append([]string{"hash", "--detailed"}, pr.Lbls...)...)
+				js := map[string]any{"repo": pr, "run": k, "threads": threads}
+				c.Oracle()
+				c.Eval(js, fmt.Sprintf("provide-e2e-%d", k), true)
+				if rc != 0 {
+					c.Fail("plz-hash-failed", fmt.Sprintf("plz hash --detailed exited %d: %s", rc, lastLines(se, 5)), js)
+					break
+				}
+				cn := canon(so)
+				if strings.Count(cn, "Source:") < 2*len(pr.Lbls) {
+					c.Fail("plz-hash-report-incomplete", "the report does not list the sources of every target", js)
+					break
+				}
+				if k == 0 {
+					first = cn
+				} else if cn != first {
+					js["first"], js["this"] = first, cn
+					c.Fail("plz-hash-differs-between-invocations", fmt.Sprintf("`plz hash --detailed` on a target that requires several languages one src provides differs between run 0 and run %d (-n %d): %s", k, threads, firstDiff(first, cn)), js)
+					break
+				}
+			}
+			c.Hist("e2e_provide", fmt.Sprintf("%d-languages", pr.langs))
+		}
+
+		lap("e2e provide")
+		// ---- dependencies pinned with hashes= of a non-default algorithm: cold, then warm twice
+		{
+			pr := pinnedRepo()
+			dir := filepath.Join(base, "pinned")
+			writeRepo(dir, filepath.Join(base, "pinnedcache"), pr.Files)
+			first := ""
+			for k, threads := range []int{1, 16, 1} {
+				so, se, rc := runPlz(plz, dir, threads, append([]string{"hash", "--detailed"}, pr.Lbls...)...)
+				js := map[string]any{"repo": pr, "run": k, "threads": threads, "plz_out": map[bool]string{true: "cold", false: "warm"}[k == 0]}
+				c.Oracle()
+				c.Eval(js, fmt.Sprintf("pinned-e2e-%d", k), true)
+				if rc != 0 {
+					c.Fail("plz-hash-failed", fmt.Sprintf("plz hash --detailed exited %d: %s", rc, lastLines(se, 5)), js)
+					break
+				}
+				cn := canon(so)
+				if strings.Count(cn, "Source:") < 2 {
+					c.Fail("plz-hash-report-incomplete", "the report does not list the sources of the dependent target", js)
+					break
+				}
+				if k == 0 {
+					first = cn
+				} else if cn != first {
+					js["first"], js["this"] = first, cn
+					c.Fail("plz-hash-differs-between-invocations", fmt.Sprintf("`plz hash --detailed` on a dependent of targets pinned with blake3 / sha1 hashes differs between the cold run and warm run %d (-n %d): %s", k, threads, firstDiff(first, cn)), js)
+					break
+				}
+			}
+			c.Hist("e2e_pinned", "blake3+sha1")
+		}
+
+		lap("e2e pinned")
 		// ---- the two fixed witnesses of map-order insertion of dict-valued srcs (see witnessRepos): repeated invocations on one tree
 		for wi, wr := range witnessRepos() {
 			dir := filepath.Join(base, fmt.Sprintf("w%d", wi))
@@ -470,7 +565,65 @@ func main() {
 			}
 			c.Hist("e2e_witness", wr.Class)
 		}
+		lap("e2e witnesses")
 	})
+}
+
+func writeRepo(dir, cache string, files map[string]string) {
+	files[".plzconfig"] = "[build]\npath = /usr/local/bin:/usr/bin:/bin\n[cache]\ndir = " + cache + "\n[display]\nupdatetitle = false\n"
+	for f, content := range files {
+		p := filepath.Join(dir, f)
+		if err := os.MkdirAll(filepath.Dir(p), 0o755); err != nil {
+			panic(err)
+		}
+		if err := os.WriteFile(p, []byte(content), 0o644); err != nil {
+			panic(err)
+		}
+	}
+}
+
+type smallRepo struct {
+	Files map[string]string `json:"files"`
+	Lbls  []string          `json:"labels"`
+	langs int
+}
+
+// provideRepo: filegroup `lib` provides 2-4 languages (dict literal in a shuffled order); t1 requires them in one order, t2 in
+// the opposite order, both through srcs (IterSources substitutes the provided targets in the order ProvideFor returns them)
+func provideRepo(r *lib.Rng) *smallRepo {
+	langs := []string{"la", "lb", "lc", "ld"}[:r.Range(2, 4)]
+	var b strings.Builder
+	items := []string{}
+	for _, l := range langs {
+		fmt.Fprintf(&b, "genrule(name = %q, outs = [%q], cmd = \"echo %s > $OUT\")\n", "p_"+l, "p_"+l+".txt", l)
+		items = append(items, fmt.Sprintf("%q: %q", l, ":p_"+l))
+	}
+	lib.Shuffle(r, items)
+	fmt.Fprintf(&b, "filegroup(name = \"lib\", srcs = [\"lib.txt\"], provides = {%s})\n", strings.Join(items, ", "))
+	rev := make([]string, len(langs))
+	for i, l := range langs {
+		rev[len(langs)-1-i] = l
+	}
+	fmt.Fprintf(&b, "genrule(name = \"t1\", srcs = [\":lib\"], requires = %s, outs = [\"t1.txt\"], cmd = \"cat $SRCS > $OUT\")\n", pyList(langs))
+	fmt.Fprintf(&b, "genrule(name = \"t2\", srcs = [\":lib\"], requires = %s, outs = [\"t2.txt\"], cmd = \"cat $SRCS > $OUT\")\n", pyList(rev))
+	return &smallRepo{Files: map[string]string{"BUILD": b.String(), "lib.txt": "lib\n"}, Lbls: []string{"//:t1", "//:t2"}, langs: len(langs)}
+}
+
+// pinnedRepo: two dependencies whose single output is pinned with hashes = [..] in blake3 (neither sha1 nor the build hash
+// function sha256) and in sha1; when they are built every configured hash checker (sha1, sha256, blake3) hashes the output with
+// store = true. `t` has them as sources: its source hashes are the sha256 digests of their outputs - taken from the memo in the
+// cold invocation and from the xattr of the output file in the warm ones.
+func pinnedRepo() *smallRepo {
+	digest := func(algo, content string) string {
+		h := core.NewDefaultBuildState().Hasher(algo).NewHash()
+		h.Write([]byte(content))
+		return hex.EncodeToString(h.Sum(nil))
+	}
+	var b strings.Builder
+	fmt.Fprintf(&b, "genrule(name = \"pinned_b3\", outs = [\"pinned_b3.txt\"], cmd = \"echo pinned b3 > $OUT\", hashes = [\"blake3: %s\"])\n", digest("blake3", "pinned b3\n"))
+	fmt.Fprintf(&b, "genrule(name = \"pinned_s1\", outs = [\"pinned_s1.txt\"], cmd = \"echo pinned s1 > $OUT\", hashes = [\"sha1: %s\"])\n", digest("sha1", "pinned s1\n"))
+	b.WriteString("genrule(name = \"t\", srcs = [\":pinned_b3\", \":pinned_s1\"], outs = [\"t.txt\"], cmd = \"cat $SRCS > $OUT\")\n")
+	return &smallRepo{Files: map[string]string{"BUILD": b.String()}, Lbls: []string{"//:t"}}
 }
 
 var sourceLines = regexp.MustCompile(`(?m)^ *Source: [^\n]*\n`)
